@@ -268,6 +268,7 @@ seq_t dtw_distance(seq_t *s1, idx_t l1,
         ec = ec_next;
         // Deal with Psi-relaxation in last column
         if (settings->psi_1e != 0 && minj == l2 && l1 - 1 - i <= settings->psi_1e) {
+            curidx = i1*length + minj - skip;
             assert(!(settings->window == 0 || settings->window == l2) || (i1 + 1)*length - 1 == curidx);
             if (dtw[curidx] < psi_shortest) {
                 // curidx is the last value
@@ -285,7 +286,7 @@ seq_t dtw_distance(seq_t *s1, idx_t l1,
     // Deal with psi-relaxation in the last row
     if (settings->psi_1e != 0 || settings->psi_2e != 0) {
         if (settings->psi_2e != 0) {
-            for (i=l2 - skip - settings->psi_2e; i<l2 - skip + 1; i++) { // iterate over vci
+            for (i=MAX(0, l2 - skip - settings->psi_2e); i<l2 - skip + 1; i++) { // iterate over vci
                 if (dtw[i1*length + i] < psi_shortest) {
                     psi_shortest = dtw[i1*length + i];
                 }
@@ -511,6 +512,7 @@ seq_t dtw_distance_ndim(seq_t *s1, idx_t l1,
         ec = ec_next;
         // Deal with Psi-relaxation in last column
         if (settings->psi_1e != 0 && minj == l2 && l1 - 1 - i <= settings->psi_1e) {
+            curidx = i1*length + minj - skip;
             assert(!(settings->window == 0 || settings->window == l2) || (i1 + 1)*length - 1 == curidx);
             if (dtw[curidx] < psi_shortest) {
                 // curidx is the last value
@@ -528,7 +530,7 @@ seq_t dtw_distance_ndim(seq_t *s1, idx_t l1,
     // Deal with psi-relaxation in the last row
     if (settings->psi_1e != 0 || settings->psi_2e != 0) {
         if (settings->psi_2e != 0) {
-            for (i=l2 - skip - settings->psi_2e; i<l2 - skip + 1; i++) { // iterate over vci
+            for (i=MAX(0, l2 - skip - settings->psi_2e); i<l2 - skip + 1; i++) { // iterate over vci
                 if (dtw[i1*length + i] < psi_shortest) {
                     psi_shortest = dtw[i1*length + i];
                 }
@@ -737,6 +739,7 @@ seq_t dtw_distance_euclidean(seq_t *s1, idx_t l1,
         ec = ec_next;
         // Deal with Psi-relaxation in last column
         if (settings->psi_1e != 0 && minj == l2 && l1 - 1 - i <= settings->psi_1e) {
+            curidx = i1*length + minj - skip;
             assert(!(settings->window == 0 || settings->window == l2) || (i1 + 1)*length - 1 == curidx);
             if (dtw[curidx] < psi_shortest) {
                 // curidx is the last value
@@ -754,7 +757,7 @@ seq_t dtw_distance_euclidean(seq_t *s1, idx_t l1,
     // Deal with psi-relaxation in the last row
     if (settings->psi_1e != 0 || settings->psi_2e != 0) {
         if (settings->psi_2e != 0) {
-            for (i=l2 - skip - settings->psi_2e; i<l2 - skip + 1; i++) { // iterate over vci
+            for (i=MAX(0, l2 - skip - settings->psi_2e); i<l2 - skip + 1; i++) { // iterate over vci
                 if (dtw[i1*length + i] < psi_shortest) {
                     psi_shortest = dtw[i1*length + i];
                 }
@@ -972,6 +975,7 @@ seq_t dtw_distance_ndim_euclidean(seq_t *s1, idx_t l1,
         ec = ec_next;
         // Deal with Psi-relaxation in last column
         if (settings->psi_1e != 0 && minj == l2 && l1 - 1 - i <= settings->psi_1e) {
+            curidx = i1*length + minj - skip;
             assert(!(settings->window == 0 || settings->window == l2) || (i1 + 1)*length - 1 == curidx);
             if (dtw[curidx] < psi_shortest) {
                 // curidx is the last value
@@ -989,7 +993,7 @@ seq_t dtw_distance_ndim_euclidean(seq_t *s1, idx_t l1,
     // Deal with psi-relaxation in the last row
     if (settings->psi_1e != 0 || settings->psi_2e != 0) {
         if (settings->psi_2e != 0) {
-            for (i=l2 - skip - settings->psi_2e; i<l2 - skip + 1; i++) { // iterate over vci
+            for (i=MAX(0, l2 - skip - settings->psi_2e); i<l2 - skip + 1; i++) { // iterate over vci
                 if (dtw[i1*length + i] < psi_shortest) {
                     psi_shortest = dtw[i1*length + i];
                 }
